@@ -128,6 +128,66 @@ struct event_printer : public jsoncons::json_visitor
     void visit_flush() override {}
 };
 
+// the push parser fed the given pieces, events as the visitor sees them, and (hook) the suspended state after every piece
+// that left the parser running:  <ok|err N> |<events> ##<sig>;<sig>...
+static std::string parser_sig(const jsoncons::json_parser& p)
+{
+    std::string out;
+#if defined(JSONCONS_VERIF)
+    p.verif_inspect([&](int st, int ns, int ss, int level, const auto& stack, const auto& buf, uint32_t cp, uint32_t cp2, bool noesc) {
+        out = std::to_string(st) + "/" + std::to_string(level) + "/";
+        for (std::size_t i = 0; i < stack.size(); ++i) { if (i) out += "."; out += std::to_string(static_cast<int>(stack[i])); }
+        if (st == 17) out += "/n" + std::to_string(ns) + "/" + hex(buf.begin(), buf.end());
+        else if (st == 15)
+        {
+            out += "/s" + std::to_string(ss) + "/" + hex(buf.begin(), buf.end()) + (noesc ? "" : "e");
+            if (ss >= 3 && ss <= 8) out += "/" + std::to_string(cp);
+            else if (ss >= 9) out += "/" + std::to_string(cp) + "," + std::to_string(cp2);
+        }
+    });
+#endif
+    return out;
+}
+
+static std::string push_piece_events(const std::string& text, const std::vector<std::size_t>& cuts, const jsoncons::json_options& o)
+{
+    event_printer pr;
+    jsoncons::json_parser p(o);
+    std::error_code ec;
+    std::vector<std::pair<std::size_t, std::size_t>> pieces;
+    std::size_t prev = 0;
+    for (std::size_t k = 0; k <= cuts.size(); ++k)
+    {
+        std::size_t end = k < cuts.size() ? cuts[k] : text.size();
+        if (end > prev) pieces.emplace_back(prev, end - prev);
+        prev = end;
+    }
+    std::string sigs;
+    std::size_t next = 0;
+    bool fed = false;
+    while (!ec && !p.stopped())
+    {
+        if (p.source_exhausted())
+        {
+            if (fed) { if (!sigs.empty()) sigs += ";"; sigs += parser_sig(p); }
+            if (next == pieces.size()) break;
+            p.update(text.data() + pieces[next].first, pieces[next].second);
+            ++next;
+            fed = true;
+        }
+        p.parse_some(pr, ec);
+    }
+    if (!ec && !p.stopped()) p.finish_parse(pr, ec);
+    if (!ec) p.check_done(ec);
+    while (!ec && next < pieces.size())
+    {
+        p.update(text.data() + pieces[next].first, pieces[next].second);
+        ++next;
+        p.check_done(ec);
+    }
+    return (ec ? errname(ec) : std::string("ok")) + " |" + pr.out + " ##" + sigs;
+}
+
 static std::string push_events(const std::string& text, const jsoncons::json_options& o)
 {
     event_printer pr;
@@ -332,6 +392,18 @@ std::string jvh::handle(const toks_t& t)
         }
         catch (const jsoncons::ser_error&) { return "err"; }
         return "ok x" + hex(out);
+    }
+    if (op == "pevents")
+    {
+        auto o = parse_opts(t.at(2));
+        std::string text = xarg(t.at(3));
+        std::vector<std::size_t> cuts;
+        if (t.at(4) != "-")
+        {
+            std::size_t i = 0; const std::string& c = t[4];
+            while (i < c.size()) { std::size_t j = c.find(',', i); if (j == std::string::npos) j = c.size(); cuts.push_back(std::stoul(c.substr(i, j - i))); i = j + 1; }
+        }
+        return push_piece_events(text, cuts, o);
     }
     if (op == "events") return push_events(xarg(t.at(3)), parse_opts(t.at(2)));
     if (op == "deliver")
